@@ -554,12 +554,12 @@ def run(tier: str, seed: int, replay=None) -> int:
         "harness/c16.py (+ the schema extraction of harness/c15.py): case builders through the public API including the genuine `o.f += v` / `o.f |= v` statements, canonicaliser",
         "CPython list/set builtins (list.__iadd__, set.__ior__, list.insert, list.__setitem__) as described by Onto/ContainerSpec.v",
     ]
-    rep.trusted.append("source pins pins/onto.json (pin set pins/sets/onto.json): the normalised source of the 57 methods the hand models Onto/Closure.v and Onto/Container.v mirror is compared on every run; an edit reopens the correspondence obligation")
+    rep.trusted.append("source pins pins/onto.json (pin set pins/sets/onto.json): the normalised source of the 61 methods the hand models Onto/Closure.v and Onto/Container.v mirror is compared on every run; an edit reopens the correspondence obligation")
     rep.assume = [
         "the field is written by its owner with fresh arguments (lists, sets, generators) or with itself for assignment / += / |=; "
         "the generated histories write fields whose inferences go to OTHER fields (inverse, super-property); item assignment on a transitive field (inference writes back into the written list; C16-i, fixed) is replayed from its witnesses against the model setitem_then_infer",
         "reading a managed field with == is not modelled; K_container_eq (C16-h) is replayed from its witness",
-        "a shallow copy of the owner shares the container (as plain Python does): writes through either owner's field must be recorded for that owner; K_clone_assign (plain assignment through the owner the container is not bound to, C16-j) is refuted and its generated instances must equal the model exactly",
+        "a shallow copy of the owner shares the container (as plain Python does): writes through either owner's field must be recorded for that owner; plain assignment through the clone (C16-j, fixed e598545) is replayed as a regression witness and generated; the small model cstep is compared exactly",
         "elements of SET-valued fields are pairwise different under == (Python's own set semantics go by ==, the symbol graph by identity); twins are generated for list fields only",
         "item assignment with an integer index or a step-1 slice whose value is a list or a generator",
         "remove / pop / clear / del are not in the property's list of writes (the graph never retracts)",
